@@ -1,214 +1,290 @@
 import GateModel.C08.Model
-/- C08 helper lemmas: the reachability invariant of the login machine. -/
+/- C08 helper lemmas: equations of the step function branch by branch, the reachability invariant of the
+   login machine (including the phase in which the completion of the login start is deferred). -/
 set_option linter.unusedSimpArgs false
 namespace Gate.C08
-
-/-! ### equations of `step` branch by branch -/
-
-theorem step_login_undecodable {cfg env} {s : St} {name nonce : Bytes} (hp : s.phase = .expect)
-    (hd : decodable name = false) : step cfg env s (.login name nonce) = closeWith [.close] := by
-  simp [step, hp, hd]
-theorem step_login_badname {cfg env} {s : St} {name nonce : Bytes} (hp : s.phase = .expect)
-    (hd : decodable name = true) (hv : validName name = false) :
-    step cfg env s (.login name nonce) = closeWith [.disconnect .badName] := by
-  simp [step, hp, hd, hv]
-theorem step_login_denied {cfg env} {s : St} {name nonce : Bytes} (hp : s.phase = .expect)
-    (hd : decodable name = true) (hv : validName name = true) (hden : cfg.preLogin = .denied) :
-    step cfg env s (.login name nonce) = closeWith [.preLoginEvent name, .disconnect .denied] := by
-  simp [step, hp, hd, hv, hden]
-theorem step_login_online {cfg env} {s : St} {name nonce : Bytes} (hp : s.phase = .expect)
-    (hd : decodable name = true) (hv : validName name = true) (hden : cfg.preLogin ≠ .denied)
-    (hn : needsAuth cfg = true) :
-    step cfg env s (.login name nonce) =
-      ({ phase := .encSent, name := name, verify := nonce }, [.preLoginEvent name, .encReq nonce]) := by
-  simp [step, hp, hd, hv, hden, hn]
-theorem step_login_offline {cfg env} {s : St} {name nonce : Bytes} (hp : s.phase = .expect)
-    (hd : decodable name = true) (hv : validName name = true) (hden : cfg.preLogin ≠ .denied)
-    (hn : needsAuth cfg = false) :
-    step cfg env s (.login name nonce) =
-      ({ phase := .successSent, name := name }, .preLoginEvent name :: admitSeq cfg name false) := by
-  simp [step, hp, hd, hv, hden, hn]
-
-theorem step_enc_noverify {cfg env} {s : St} {tok secret} (hp : s.phase = .encSent) (he : s.verify.isEmpty = true) :
-    step cfg env s (.encResp tok secret) = closeWith [.close] := by
-  simp [step, hp, he]
-theorem step_enc_badtoken {cfg env} {s : St} {tok secret} (hp : s.phase = .encSent) (he : s.verify.isEmpty = false)
-    (ht : tok ≠ some s.verify) : step cfg env s (.encResp tok secret) = closeWith [.close] := by
-  simp [step, hp, he, ht]
-theorem step_enc_nosecret {cfg env} {s : St} (hp : s.phase = .encSent) (he : s.verify.isEmpty = false) :
-    step cfg env s (.encResp (some s.verify) none) = closeWith [.close] := by
-  simp [step, hp, he]
-theorem step_enc_badlen {cfg env} {s : St} {sec : Bytes} (hp : s.phase = .encSent) (he : s.verify.isEmpty = false)
-    (hk : keyLenOk sec.length = false) :
-    step cfg env s (.encResp (some s.verify) (some sec)) = closeWith [.disconnect .internal] := by
-  simp [step, hp, he, hk]
-theorem step_enc_error {cfg env} {s : St} {sec : Bytes} (hp : s.phase = .encSent) (he : s.verify.isEmpty = false)
-    (hk : keyLenOk sec.length = true) (hs : env.sess s.name sec = .error) :
-    step cfg env s (.encResp (some s.verify) (some sec)) =
-      closeWith [.encOn sec, .hasJoined s.name sec, .disconnect .unable] := by
-  simp [step, hp, he, hk, hs]
-theorem step_enc_offline {cfg env} {s : St} {sec : Bytes} (hp : s.phase = .encSent) (he : s.verify.isEmpty = false)
-    (hk : keyLenOk sec.length = true) (hs : env.sess s.name sec = .offline) :
-    step cfg env s (.encResp (some s.verify) (some sec)) =
-      closeWith [.encOn sec, .hasJoined s.name sec, .disconnect .onlineOnly] := by
-  simp [step, hp, he, hk, hs]
-theorem step_enc_badprofile {cfg env} {s : St} {sec : Bytes} (hp : s.phase = .encSent) (he : s.verify.isEmpty = false)
-    (hk : keyLenOk sec.length = true) (hs : env.sess s.name sec = .badProfile) :
-    step cfg env s (.encResp (some s.verify) (some sec)) =
-      closeWith [.encOn sec, .hasJoined s.name sec, .disconnect .unable] := by
-  simp [step, hp, he, hk, hs]
-theorem step_enc_online {cfg env} {s : St} {sec : Bytes} (hp : s.phase = .encSent) (he : s.verify.isEmpty = false)
-    (hk : keyLenOk sec.length = true) (hs : env.sess s.name sec = .online) :
-    step cfg env s (.encResp (some s.verify) (some sec)) =
-      ({ s with phase := .successSent }, [.encOn sec, .hasJoined s.name sec] ++ admitSeq cfg s.name true) := by
-  simp [step, hp, he, hk, hs]
-
-theorem step_login_wrong {cfg env} {s : St} {name nonce : Bytes} (h : s.phase = .encSent ∨ s.phase = .successSent) :
-    step cfg env s (.login name nonce) = closeWith [.close] := by
-  rcases h with h | h <;> simp [step, h]
-theorem step_enc_wrong {cfg env} {s : St} {tok secret} (h : s.phase = .expect ∨ s.phase = .successSent) :
-    step cfg env s (.encResp tok secret) = closeWith [.close] := by
-  rcases h with h | h <;> simp [step, h]
-theorem step_ack_wrong {cfg env} {s : St} (h : s.phase = .expect ∨ s.phase = .encSent) :
-    step cfg env s .ack = closeWith [.close] := by
-  rcases h with h | h <;> simp [step, h]
-theorem step_other_open {cfg env} {s : St} (h : s.phase = .expect ∨ s.phase = .encSent ∨ s.phase = .successSent) :
-    step cfg env s .other = closeWith [.close] := by
-  rcases h with h | h | h <;> simp [step, h]
-theorem step_done {cfg env} {s : St} (i : In) (h : s.phase = .closed ∨ s.phase = .config) :
-    step cfg env s i = (s, []) := by
-  rcases h with h | h <;> cases i <;> simp [step, h]
-
-def isAdmission : Out → Bool
-  | .success _ _ => true
-  | .registered _ => true
-  | _ => false
-
-/-- the only way to an admission when authentication is required -/
-def chain (cfg : Cfg) (name nonce sec : Bytes) : List Out :=
-  [.preLoginEvent name, .encReq nonce, .encOn sec, .hasJoined name sec] ++ admitSeq cfg name true
-
-theorem admit_no_admission_false (cfg : Cfg) (n : Bytes) (o : Bool) : (admitSeq cfg n o).any isAdmission = true := by
-  cases hc : cfg.compression <;> simp [admitSeq, hc, isAdmission]
-
-/-- everything the machine has emitted so far is either free of admissions, or starts with the full chain
-    (justified by the inputs consumed so far) followed by admission-free output -/
-def Good (cfg : Cfg) (env : Env) (done : List In) (outs : List Out) : Prop :=
-  outs.any isAdmission = false ∨
-  ∃ name nonce sec tail, outs = chain cfg name nonce sec ++ tail ∧ tail.any isAdmission = false ∧
-    In.login name nonce ∈ done ∧ In.encResp (some nonce) (some sec) ∈ done ∧
-    env.sess name sec = .online ∧ keyLenOk sec.length = true ∧ validName name = true
-
-structure Inv (cfg : Cfg) (env : Env) (done : List In) (s : St) (outs : List Out) : Prop where
-  expect : s.phase = .expect → outs = []
-  encSent : s.phase = .encSent →
-    outs = [.preLoginEvent s.name, .encReq s.verify] ∧ In.login s.name s.verify ∈ done ∧ validName s.name = true
-  good : Good cfg env done outs
-
-theorem good_mono {cfg env done outs} (i : In) (extra : List Out) (h : Good cfg env done outs)
-    (he : extra.any isAdmission = false) : Good cfg env (done ++ [i]) (outs ++ extra) := by
-  rcases h with h | ⟨name, nonce, sec, tail, ho, ht, h1, h2, h3, h4, h5⟩
-  · left; simp [List.any_append, h, he]
-  · right
-    refine ⟨name, nonce, sec, tail ++ extra, by simp [ho], by simp [List.any_append, ht, he], ?_, ?_, h3, h4, h5⟩
-    · simp [h1]
-    · simp [h2]
 
 theorem closeWith_fst (o : List Out) : (closeWith o).1 = { phase := .closed } := rfl
 theorem closeWith_snd (o : List Out) : (closeWith o).2 = o := rfl
 
-/-- one step preserves the invariant (authentication required) -/
-theorem inv_step (cfg : Cfg) (env : Env) (hn : needsAuth cfg = true) {done : List In} {s : St} {outs : List Out}
+/-! ### equations -/
+
+section eqs
+variable {cfg : Cfg} {env : Env} {s : St} {name nonce : Bytes}
+
+theorem loginStep_undecodable (hd : decodable name = false) : loginStep cfg name nonce = closeWith [.close] := by
+  simp [loginStep, hd]
+theorem loginStep_badname (hd : decodable name = true) (hv : validName name = false) :
+    loginStep cfg name nonce = closeWith [.disconnect .badName] := by
+  simp [loginStep, hd, hv]
+theorem loginStep_denied (hd : decodable name = true) (hv : validName name = true) (hden : cfg.preLogin name = .denied) :
+    loginStep cfg name nonce = closeWith [.preLoginEvent name, .disconnect .denied] := by
+  simp [loginStep, hd, hv, hden]
+theorem loginStep_wait (hd : decodable name = true) (hv : validName name = true) (hden : cfg.preLogin name ≠ .denied)
+    (hk : cfg.preMsgs name ≠ 0) :
+    loginStep cfg name nonce =
+      ({ phase := .waiting, name := name, verify := nonce, outstanding := msgIds (cfg.preMsgs name) },
+       .preLoginEvent name :: (msgIds (cfg.preMsgs name)).map .pluginMsg) := by
+  simp [loginStep, hd, hv, hden, hk]
+theorem loginStep_now (hd : decodable name = true) (hv : validName name = true) (hden : cfg.preLogin name ≠ .denied)
+    (hk : cfg.preMsgs name = 0) :
+    loginStep cfg name nonce =
+      ((complete cfg { phase := .waiting, name := name, verify := nonce, outstanding := [] }).1,
+       .preLoginEvent name :: (complete cfg { phase := .waiting, name := name, verify := nonce, outstanding := [] }).2) := by
+  simp [loginStep, hd, hv, hden, hk, msgIds]
+
+theorem complete_auth (h : needsAuth cfg s.name = true) :
+    complete cfg s = ({ s with phase := .encSent, outstanding := [] }, [.encReq s.verify]) := by
+  simp [complete, h]
+theorem complete_offline (h : needsAuth cfg s.name = false) :
+    complete cfg s = ({ s with phase := .successSent, outstanding := [] }, admitSeq cfg s.name false) := by
+  simp [complete, h]
+
+theorem pluginStep_unknown {id : Int} (h : s.outstanding.contains id = false) : pluginStep cfg s id = (s, []) := by
+  simp only [pluginStep, h, Bool.false_eq_true, ↓reduceIte]
+theorem pluginStep_more {id : Int} (h : s.outstanding.contains id = true)
+    (hr : (s.outstanding.filter (· != id)).isEmpty = false) :
+    pluginStep cfg s id = ({ s with outstanding := s.outstanding.filter (· != id) }, [.consumed id]) := by
+  simp only [pluginStep, h, hr]; rfl
+theorem pluginStep_last {id : Int} (h : s.outstanding.contains id = true)
+    (hr : (s.outstanding.filter (· != id)).isEmpty = true) :
+    pluginStep cfg s id = ((complete cfg { s with outstanding := [] }).1,
+      .consumed id :: (complete cfg { s with outstanding := [] }).2) := by
+  simp only [pluginStep, h, hr]; rfl
+
+theorem encStep_noverify {tok secret} (he : s.verify.isEmpty = true) : encStep cfg env s tok secret = closeWith [.close] := by
+  simp [encStep, he]
+theorem encStep_badtoken {tok secret} (he : s.verify.isEmpty = false) (ht : tok ≠ some s.verify) :
+    encStep cfg env s tok secret = closeWith [.close] := by
+  simp [encStep, he, ht]
+theorem encStep_nosecret (he : s.verify.isEmpty = false) : encStep cfg env s (some s.verify) none = closeWith [.close] := by
+  simp [encStep, he]
+theorem encStep_badlen {sec : Bytes} (he : s.verify.isEmpty = false) (hk : keyLenOk sec.length = false) :
+    encStep cfg env s (some s.verify) (some sec) = closeWith [.disconnect .internal] := by
+  simp [encStep, he, hk]
+theorem encStep_error {sec : Bytes} (he : s.verify.isEmpty = false) (hk : keyLenOk sec.length = true)
+    (hs : env.sess s.name sec = .error) :
+    encStep cfg env s (some s.verify) (some sec) = closeWith [.encOn sec, .hasJoined s.name sec, .disconnect .unable] := by
+  simp [encStep, he, hk, hs]
+theorem encStep_offline {sec : Bytes} (he : s.verify.isEmpty = false) (hk : keyLenOk sec.length = true)
+    (hs : env.sess s.name sec = .offline) :
+    encStep cfg env s (some s.verify) (some sec) = closeWith [.encOn sec, .hasJoined s.name sec, .disconnect .onlineOnly] := by
+  simp [encStep, he, hk, hs]
+theorem encStep_badprofile {sec : Bytes} (he : s.verify.isEmpty = false) (hk : keyLenOk sec.length = true)
+    (hs : env.sess s.name sec = .badProfile) :
+    encStep cfg env s (some s.verify) (some sec) = closeWith [.encOn sec, .hasJoined s.name sec, .disconnect .unable] := by
+  simp [encStep, he, hk, hs]
+theorem encStep_online {sec : Bytes} (he : s.verify.isEmpty = false) (hk : keyLenOk sec.length = true)
+    (hs : env.sess s.name sec = .online) :
+    encStep cfg env s (some s.verify) (some sec) =
+      ({ s with phase := .successSent }, [.encOn sec, .hasJoined s.name sec] ++ admitSeq cfg s.name true) := by
+  simp [encStep, he, hk, hs]
+
+theorem step_login_expect (hp : s.phase = .expect) : step cfg env s (.login name nonce) = loginStep cfg name nonce := by
+  simp [step, hp]
+theorem step_login_wrong (h : s.phase = .waiting ∨ s.phase = .encSent ∨ s.phase = .successSent) :
+    step cfg env s (.login name nonce) = closeWith [.close] := by
+  rcases h with h | h | h <;> simp [step, h]
+theorem step_enc_encSent {tok secret} (hp : s.phase = .encSent) :
+    step cfg env s (.encResp tok secret) = encStep cfg env s tok secret := by
+  simp [step, hp]
+theorem step_enc_wrong {tok secret} (h : s.phase = .expect ∨ s.phase = .waiting ∨ s.phase = .successSent) :
+    step cfg env s (.encResp tok secret) = closeWith [.close] := by
+  rcases h with h | h | h <;> simp [step, h]
+theorem step_plugin_waiting {id : Int} (hp : s.phase = .waiting) : step cfg env s (.pluginResp id) = pluginStep cfg s id := by
+  simp [step, hp]
+theorem step_plugin_other {id : Int} (hp : s.phase ≠ .waiting) : step cfg env s (.pluginResp id) = (s, []) := by
+  cases h : s.phase <;> simp [step, h] <;> exact absurd h hp
+theorem step_ack_wrong (h : s.phase = .expect ∨ s.phase = .waiting ∨ s.phase = .encSent) :
+    step cfg env s .ack = closeWith [.close] := by
+  rcases h with h | h | h <;> simp [step, h]
+theorem step_other_open (h : s.phase = .expect ∨ s.phase = .waiting ∨ s.phase = .encSent ∨ s.phase = .successSent) :
+    step cfg env s .other = closeWith [.close] := by
+  rcases h with h | h | h | h <;> simp [step, h]
+theorem step_done (i : In) (h : s.phase = .closed ∨ s.phase = .config) : step cfg env s i = (s, []) := by
+  rcases h with h | h <;> cases i <;> simp [step, h]
+end eqs
+
+/-! ### the invariant -/
+
+/-- an admission (LoginSuccess / registration) of a username for which authentication is required -/
+def isAuthAdm (cfg : Cfg) : Out → Bool
+  | .success n _ => needsAuth cfg n
+  | .registered n => needsAuth cfg n
+  | _ => false
+
+/-- what has been emitted while the completion is deferred: the PreLogin event, its plugin messages, the
+    consumers invoked so far -/
+def preamble (cfg : Cfg) (name : Bytes) (cs : List Int) : List Out :=
+  .preLoginEvent name :: (msgIds (cfg.preMsgs name)).map .pluginMsg ++ cs.map .consumed
+
+/-- the only way to an admission of a username that requires authentication -/
+def chain (cfg : Cfg) (name : Bytes) (cs : List Int) (nonce sec : Bytes) : List Out :=
+  preamble cfg name cs ++ [.encReq nonce, .encOn sec, .hasJoined name sec] ++ admitSeq cfg name true
+
+theorem any_map_pluginMsg (cfg : Cfg) (l : List Int) : (l.map Out.pluginMsg).any (isAuthAdm cfg) = false := by
+  induction l with
+  | nil => rfl
+  | cons x xs ih => simp [isAuthAdm, ih]
+theorem any_map_consumed (cfg : Cfg) (l : List Int) : (l.map Out.consumed).any (isAuthAdm cfg) = false := by
+  induction l with
+  | nil => rfl
+  | cons x xs ih => simp [isAuthAdm, ih]
+theorem preamble_noadm (cfg : Cfg) (name : Bytes) (cs : List Int) : (preamble cfg name cs).any (isAuthAdm cfg) = false := by
+  simp [preamble, List.any_append, any_map_pluginMsg, any_map_consumed, isAuthAdm]
+theorem preamble_snoc (cfg : Cfg) (name : Bytes) (cs : List Int) (id : Int) :
+    preamble cfg name (cs ++ [id]) = preamble cfg name cs ++ [.consumed id] := by
+  simp [preamble, List.append_assoc]
+theorem admitSeq_adm (cfg : Cfg) (n : Bytes) (o : Bool) : (admitSeq cfg n o).any (isAuthAdm cfg) = needsAuth cfg n := by
+  cases hc : cfg.compression <;> simp [admitSeq, hc, isAuthAdm]
+
+def Good (cfg : Cfg) (env : Env) (done : List In) (outs : List Out) : Prop :=
+  outs.any (isAuthAdm cfg) = false ∨
+  ∃ name cs nonce sec tail, outs = chain cfg name cs nonce sec ++ tail ∧ tail.any (isAuthAdm cfg) = false ∧
+    In.login name nonce ∈ done ∧ In.encResp (some nonce) (some sec) ∈ done ∧
+    env.sess name sec = .online ∧ keyLenOk sec.length = true ∧ validName name = true ∧ needsAuth cfg name = true
+
+structure Inv (cfg : Cfg) (env : Env) (done : List In) (s : St) (outs : List Out) : Prop where
+  expect : s.phase = .expect → outs = []
+  waiting : s.phase = .waiting →
+    ∃ cs, outs = preamble cfg s.name cs ∧ In.login s.name s.verify ∈ done ∧ validName s.name = true
+  encSent : s.phase = .encSent →
+    ∃ cs, outs = preamble cfg s.name cs ++ [.encReq s.verify] ∧ In.login s.name s.verify ∈ done ∧
+      validName s.name = true ∧ needsAuth cfg s.name = true
+  good : Good cfg env done outs
+
+theorem good_mono {cfg env done outs} (i : In) (extra : List Out) (h : Good cfg env done outs)
+    (he : extra.any (isAuthAdm cfg) = false) : Good cfg env (done ++ [i]) (outs ++ extra) := by
+  rcases h with h | ⟨name, cs, nonce, sec, tail, ho, ht, h1, h2, h3, h4, h5, h6⟩
+  · left; simp [List.any_append, h, he]
+  · right
+    refine ⟨name, cs, nonce, sec, tail ++ extra, by simp [ho], by simp [List.any_append, ht, he], ?_, ?_, h3, h4, h5, h6⟩
+    · simp [h1]
+    · simp [h2]
+
+/-- running the completion callback from the deferred phase establishes the invariant -/
+theorem complete_inv (cfg : Cfg) (env : Env) (done : List In) (st : St) (cs : List Int)
+    (hlog : In.login st.name st.verify ∈ done) (hv : validName st.name = true) :
+    Inv cfg env done (complete cfg st).1 (preamble cfg st.name cs ++ (complete cfg st).2) := by
+  cases hn : needsAuth cfg st.name with
+  | true =>
+    rw [complete_auth hn]
+    refine ⟨by intro h; simp at h, by intro h; simp at h, fun _ => ⟨cs, rfl, hlog, hv, hn⟩, Or.inl ?_⟩
+    simp [List.any_append, preamble_noadm, isAuthAdm]
+  | false =>
+    rw [complete_offline hn]
+    refine ⟨by intro h; simp at h, by intro h; simp at h, by intro h; simp at h, Or.inl ?_⟩
+    simp only [List.any_append, preamble_noadm, admitSeq_adm, hn, Bool.or_self]
+
+/-- one step preserves the invariant -/
+theorem inv_step (cfg : Cfg) (env : Env) {done : List In} {s : St} {outs : List Out}
     (hI : Inv cfg env done s outs) (i : In) :
     Inv cfg env (done ++ [i]) (step cfg env s i).1 (outs ++ (step cfg env s i).2) := by
-  -- closing with admission-free output
-  have hclose : ∀ extra : List Out, extra.any isAdmission = false →
+  have hclose : ∀ extra : List Out, extra.any (isAuthAdm cfg) = false →
       Inv cfg env (done ++ [i]) (closeWith extra).1 (outs ++ (closeWith extra).2) := by
     intro extra he
-    refine ⟨by intro h; simp [closeWith] at h, by intro h; simp [closeWith] at h, ?_⟩
+    refine ⟨by intro h; simp [closeWith] at h, by intro h; simp [closeWith] at h, by intro h; simp [closeWith] at h, ?_⟩
     exact good_mono i extra hI.good he
-  -- unchanged state, no output
   have hsame : Inv cfg env (done ++ [i]) s (outs ++ []) := by
-    refine ⟨by intro h; simpa using hI.expect h, ?_, by simpa using good_mono i [] hI.good rfl⟩
-    intro h; have := hI.encSent h; simp [this.1, this.2.1, this.2.2]
+    refine ⟨by intro h; simpa using hI.expect h, ?_, ?_, by simpa using good_mono i [] hI.good rfl⟩
+    · intro h; obtain ⟨cs, h1, h2, h3⟩ := hI.waiting h
+      exact ⟨cs, by simp [h1], by simp [h2], h3⟩
+    · intro h; obtain ⟨cs, h1, h2, h3, h4⟩ := hI.encSent h
+      exact ⟨cs, by simp [h1], by simp [h2], h3, h4⟩
+  by_cases hdone : s.phase = .closed ∨ s.phase = .config
+  · rw [step_done i hdone]; exact hsame
   cases i with
-  | pluginResp id => simpa [step] using hsame
   | login name nonce =>
-    cases hp : s.phase with
-    | closed => simpa [step, hp] using hsame
-    | config => simpa [step, hp] using hsame
-    | encSent => rw [step_login_wrong (Or.inl hp)]; exact hclose _ rfl
-    | successSent => rw [step_login_wrong (Or.inr hp)]; exact hclose _ rfl
-    | expect =>
+    by_cases hw : s.phase = .waiting ∨ s.phase = .encSent ∨ s.phase = .successSent
+    · rw [step_login_wrong hw]; exact hclose _ rfl
+    · have hp : s.phase = .expect := by cases h : s.phase <;> simp [h] at hdone hw ⊢
       have ho := hI.expect hp
+      subst ho
+      rw [step_login_expect hp]
       cases hd : decodable name with
-      | false => rw [step_login_undecodable hp hd]; exact hclose _ rfl
+      | false => rw [loginStep_undecodable hd]; exact hclose _ rfl
       | true =>
         cases hv : validName name with
-        | false => rw [step_login_badname hp hd hv]; exact hclose _ rfl
+        | false => rw [loginStep_badname hd hv]; exact hclose _ rfl
         | true =>
-          by_cases hden : cfg.preLogin = .denied
-          · rw [step_login_denied hp hd hv hden]; exact hclose _ rfl
-          · rw [step_login_online hp hd hv hden hn]
-            subst ho
-            refine ⟨by intro h; simp at h, ?_, Or.inl (by simp [isAdmission])⟩
-            intro _; simp [hv]
+          by_cases hden : cfg.preLogin name = .denied
+          · rw [loginStep_denied hd hv hden]; exact hclose _ rfl
+          · by_cases hk : cfg.preMsgs name = 0
+            · rw [loginStep_now hd hv hden hk]
+              have := complete_inv cfg env (done ++ [In.login name nonce])
+                { phase := .waiting, name := name, verify := nonce, outstanding := [] } [] (by simp) hv
+              simpa [preamble, hk, msgIds] using this
+            · rw [loginStep_wait hd hv hden hk]
+              refine ⟨by intro h; simp at h, fun _ => ⟨[], by simp [preamble], by simp, hv⟩, by intro h; simp at h, Or.inl ?_⟩
+              have := preamble_noadm cfg name []
+              simpa [preamble] using this
+  | pluginResp id =>
+    by_cases hp : s.phase = .waiting
+    · obtain ⟨cs, ho, hin, hv⟩ := hI.waiting hp
+      rw [step_plugin_waiting hp]
+      cases hc : s.outstanding.contains id with
+      | false => rw [pluginStep_unknown hc]; exact hsame
+      | true =>
+        cases hr : (s.outstanding.filter (· != id)).isEmpty with
+        | false =>
+          rw [pluginStep_more hc hr]
+          refine ⟨by intro h; simp [hp] at h, fun _ => ⟨cs ++ [id], by simp [ho, preamble_snoc], by simp [hin], hv⟩,
+            by intro h; simp [hp] at h, good_mono _ _ hI.good (by simp [isAuthAdm])⟩
+        | true =>
+          rw [pluginStep_last hc hr]
+          have := complete_inv cfg env (done ++ [In.pluginResp id]) { s with outstanding := [] } (cs ++ [id])
+            (by simp [hin]) hv
+          simpa [ho, preamble_snoc, List.append_assoc] using this
+    · rw [step_plugin_other hp]; exact hsame
   | encResp tok secret =>
-    cases hp : s.phase with
-    | closed => simpa [step, hp] using hsame
-    | config => simpa [step, hp] using hsame
-    | expect => rw [step_enc_wrong (Or.inl hp)]; exact hclose _ rfl
-    | successSent => rw [step_enc_wrong (Or.inr hp)]; exact hclose _ rfl
-    | encSent =>
-      obtain ⟨ho, hin, hv⟩ := hI.encSent hp
+    by_cases hw : s.phase = .expect ∨ s.phase = .waiting ∨ s.phase = .successSent
+    · rw [step_enc_wrong hw]; exact hclose _ rfl
+    · have hp : s.phase = .encSent := by cases h : s.phase <;> simp [h] at hdone hw ⊢
+      obtain ⟨cs, ho, hin, hv, hn⟩ := hI.encSent hp
+      rw [step_enc_encSent hp]
       cases he : s.verify.isEmpty with
-      | true => rw [step_enc_noverify hp he]; exact hclose _ rfl
+      | true => rw [encStep_noverify he]; exact hclose _ rfl
       | false =>
         by_cases ht : tok = some s.verify
         · subst ht
           cases secret with
-          | none => rw [step_enc_nosecret hp he]; exact hclose _ rfl
+          | none => rw [encStep_nosecret he]; exact hclose _ rfl
           | some sec =>
             cases hk : keyLenOk sec.length with
-            | false => rw [step_enc_badlen hp he hk]; exact hclose _ rfl
+            | false => rw [encStep_badlen he hk]; exact hclose _ rfl
             | true =>
               cases hs : env.sess s.name sec with
-              | error => rw [step_enc_error hp he hk hs]; exact hclose _ rfl
-              | offline => rw [step_enc_offline hp he hk hs]; exact hclose _ rfl
-              | badProfile => rw [step_enc_badprofile hp he hk hs]; exact hclose _ rfl
+              | error => rw [encStep_error he hk hs]; exact hclose _ rfl
+              | offline => rw [encStep_offline he hk hs]; exact hclose _ rfl
+              | badProfile => rw [encStep_badprofile he hk hs]; exact hclose _ rfl
               | online =>
-                rw [step_enc_online hp he hk hs]
-                refine ⟨by intro h; simp at h, by intro h; simp at h,
-                  Or.inr ⟨s.name, s.verify, sec, [], ?_, rfl, ?_, ?_, hs, hk, hv⟩⟩
-                · simp [ho, chain]
+                rw [encStep_online he hk hs]
+                refine ⟨by intro h; simp at h, by intro h; simp at h, by intro h; simp at h,
+                  Or.inr ⟨s.name, cs, s.verify, sec, [], ?_, rfl, ?_, ?_, hs, hk, hv, hn⟩⟩
+                · simp [ho, chain, List.append_assoc]
                 · simp [hin]
                 · simp
-        · rw [step_enc_badtoken hp he ht]; exact hclose _ rfl
+        · rw [encStep_badtoken he ht]; exact hclose _ rfl
   | ack =>
-    cases hp : s.phase with
-    | closed => simpa [step, hp] using hsame
-    | config => simpa [step, hp] using hsame
-    | expect => rw [step_ack_wrong (Or.inl hp)]; exact hclose _ rfl
-    | encSent => rw [step_ack_wrong (Or.inr hp)]; exact hclose _ rfl
-    | successSent =>
+    by_cases hw : s.phase = .expect ∨ s.phase = .waiting ∨ s.phase = .encSent
+    · rw [step_ack_wrong hw]; exact hclose _ rfl
+    · have hp : s.phase = .successSent := by cases h : s.phase <;> simp [h] at hdone hw ⊢
       simp only [step, hp]
-      refine ⟨by intro h; simp at h, by intro h; simp at h, by simpa using good_mono .ack [] hI.good rfl⟩
+      refine ⟨by intro h; simp at h, by intro h; simp at h, by intro h; simp at h,
+        by simpa using good_mono .ack [] hI.good rfl⟩
   | other =>
-    cases hp : s.phase with
-    | closed => simpa [step, hp] using hsame
-    | config => simpa [step, hp] using hsame
-    | expect => rw [step_other_open (Or.inl hp)]; exact hclose _ rfl
-    | encSent => rw [step_other_open (Or.inr (Or.inl hp))]; exact hclose _ rfl
-    | successSent => rw [step_other_open (Or.inr (Or.inr hp))]; exact hclose _ rfl
+    have hp : s.phase = .expect ∨ s.phase = .waiting ∨ s.phase = .encSent ∨ s.phase = .successSent := by
+      cases h : s.phase <;> simp [h] at hdone ⊢
+    rw [step_other_open hp]; exact hclose _ rfl
 
-theorem inv_run (cfg : Cfg) (env : Env) (hn : needsAuth cfg = true) (ins : List In) :
+theorem inv_run (cfg : Cfg) (env : Env) (ins : List In) :
     ∀ (done : List In) (s : St) (outs : List Out), Inv cfg env done s outs →
       Inv cfg env (done ++ ins) (run cfg env s ins).1 (outs ++ (run cfg env s ins).2) := by
   induction ins with
   | nil => intro done s outs h; simpa [run] using h
   | cons i is ih =>
     intro done s outs h
-    have h1 := inv_step cfg env hn h i
+    have h1 := inv_step cfg env h i
     have h2 := ih (done ++ [i]) _ _ h1
     simpa [run, List.append_assoc] using h2
 
@@ -224,91 +300,127 @@ theorem run_closed (cfg : Cfg) (env : Env) (ins : List In) (s : St) (h : s.phase
   induction ins with
   | nil => rfl
   | cons i is ih =>
-    have : step cfg env s i = (s, []) := by cases i <;> simp [step, h]
+    have : step cfg env s i = (s, []) := step_done i (Or.inl h)
     simp [run, this, ih]
+
+/-! ### at most one LoginSuccess -/
 
 /-- rank of a phase: the machine only moves forward -/
 def rank : Phase → Nat
-  | .expect => 0 | .encSent => 1 | .successSent => 2 | .config => 3 | .closed => 4
+  | .expect => 0 | .waiting => 1 | .encSent => 2 | .successSent => 3 | .config => 4 | .closed => 5
 
 def successCount (outs : List Out) : Nat := (outs.filter fun o => match o with | .success _ _ => true | _ => false).length
 
-theorem admit_successCount (cfg : Cfg) (n : Bytes) (o : Bool) : successCount (admitSeq cfg n o) = 1 := by
+theorem admitSeq_successCount (cfg : Cfg) (n : Bytes) (o : Bool) : successCount (admitSeq cfg n o) = 1 := by
   cases hc : cfg.compression <;> simp [admitSeq, hc, successCount]
+theorem successCount_map_pluginMsg (l : List Int) : successCount (l.map Out.pluginMsg) = 0 := by
+  induction l with
+  | nil => rfl
+  | cons x xs ih => simpa [successCount] using ih
+theorem successCount_cons_other (o : Out) (l : List Out) (h : (match o with | .success _ _ => true | _ => false) = false) :
+    successCount (o :: l) = successCount l := by
+  simp [successCount, List.filter_cons, h]
 
-theorem closeWith_rank (o : List Out) : rank (closeWith o).1.phase = 4 := rfl
+theorem closeWith_rank (o : List Out) : rank (closeWith o).1.phase = 5 := rfl
+theorem rank_expect : rank .expect = 0 := rfl
+theorem rank_waiting : rank .waiting = 1 := rfl
+
+/-- the completion moves to rank ≥ 2 and emits a LoginSuccess only when it moves to rank 3 -/
+theorem complete_success (cfg : Cfg) (st : St) :
+    2 ≤ rank (complete cfg st).1.phase ∧
+    successCount (complete cfg st).2 ≤ (if 3 ≤ rank (complete cfg st).1.phase then 1 else 0) := by
+  cases hn : needsAuth cfg st.name with
+  | true => rw [complete_auth hn]; simp [rank, successCount]
+  | false => rw [complete_offline hn]; simp [rank, admitSeq_successCount]
 
 theorem step_success (cfg : Cfg) (env : Env) (s : St) (i : In) :
     rank s.phase ≤ rank (step cfg env s i).1.phase ∧
-    successCount (step cfg env s i).2 + (if 2 ≤ rank s.phase then 1 else 0)
-      ≤ (if 2 ≤ rank (step cfg env s i).1.phase then 1 else 0) := by
+    successCount (step cfg env s i).2 + (if 3 ≤ rank s.phase then 1 else 0)
+      ≤ (if 3 ≤ rank (step cfg env s i).1.phase then 1 else 0) := by
   have hcl : ∀ o : List Out, successCount o = 0 → rank s.phase ≤ rank (closeWith o).1.phase ∧
-      successCount (closeWith o).2 + (if 2 ≤ rank s.phase then 1 else 0) ≤ (if 2 ≤ rank (closeWith o).1.phase then 1 else 0) := by
+      successCount (closeWith o).2 + (if 3 ≤ rank s.phase then 1 else 0) ≤ (if 3 ≤ rank (closeWith o).1.phase then 1 else 0) := by
     intro o ho
     rw [closeWith_rank, closeWith_snd, ho]
     cases s.phase <;> simp [rank]
   have hnop : ∀ i, step cfg env s i = (s, []) → rank s.phase ≤ rank (step cfg env s i).1.phase ∧
-      successCount (step cfg env s i).2 + (if 2 ≤ rank s.phase then 1 else 0)
-        ≤ (if 2 ≤ rank (step cfg env s i).1.phase then 1 else 0) := by
+      successCount (step cfg env s i).2 + (if 3 ≤ rank s.phase then 1 else 0)
+        ≤ (if 3 ≤ rank (step cfg env s i).1.phase then 1 else 0) := by
     intro i h; rw [h]; exact ⟨Nat.le_refl _, by simp [successCount]⟩
   by_cases hdone : s.phase = .closed ∨ s.phase = .config
   · exact hnop i (step_done i hdone)
   cases i with
-  | pluginResp id => exact hnop _ rfl
   | login name nonce =>
-    by_cases hw : s.phase = .encSent ∨ s.phase = .successSent
+    by_cases hw : s.phase = .waiting ∨ s.phase = .encSent ∨ s.phase = .successSent
     · rw [step_login_wrong hw]; exact hcl _ rfl
-    · have hp : s.phase = .expect := by
-        cases h : s.phase <;> simp [h] at hdone hw ⊢
+    · have hp : s.phase = .expect := by cases h : s.phase <;> simp [h] at hdone hw ⊢
+      rw [step_login_expect hp]
       cases hd : decodable name with
-      | false => rw [step_login_undecodable hp hd]; exact hcl _ rfl
+      | false => rw [loginStep_undecodable hd]; exact hcl _ rfl
       | true =>
         cases hv : validName name with
-        | false => rw [step_login_badname hp hd hv]; exact hcl _ rfl
+        | false => rw [loginStep_badname hd hv]; exact hcl _ rfl
         | true =>
-          by_cases hden : cfg.preLogin = .denied
-          · rw [step_login_denied hp hd hv hden]; exact hcl _ rfl
-          · cases hn : needsAuth cfg with
-            | true => rw [step_login_online hp hd hv hden hn]; simp [hp, rank, successCount]
-            | false =>
-              rw [step_login_offline hp hd hv hden hn]
-              have := admit_successCount cfg name false
-              simp only [successCount] at this
-              simp [hp, rank, successCount, this]
+          by_cases hden : cfg.preLogin name = .denied
+          · rw [loginStep_denied hd hv hden]; exact hcl _ rfl
+          · by_cases hk : cfg.preMsgs name = 0
+            · rw [loginStep_now hd hv hden hk]
+              have := complete_success cfg { phase := .waiting, name := name, verify := nonce, outstanding := [] }
+              rw [successCount_cons_other _ _ rfl]
+              simp only [hp, rank_expect]
+              refine ⟨by omega, ?_⟩
+              simpa using this.2
+            · rw [loginStep_wait hd hv hden hk]
+              rw [successCount_cons_other _ _ rfl, successCount_map_pluginMsg]
+              simp [hp, rank]
+  | pluginResp id =>
+    by_cases hp : s.phase = .waiting
+    · rw [step_plugin_waiting hp]
+      cases hc : s.outstanding.contains id with
+      | false => rw [pluginStep_unknown hc]; exact ⟨Nat.le_refl _, by simp [successCount]⟩
+      | true =>
+        cases hr : (s.outstanding.filter (· != id)).isEmpty with
+        | false => rw [pluginStep_more hc hr]; simp [hp, rank, successCount]
+        | true =>
+          rw [pluginStep_last hc hr]
+          have := complete_success cfg { s with outstanding := [] }
+          rw [successCount_cons_other _ _ rfl]
+          simp only [hp, rank_waiting] at this ⊢
+          refine ⟨by omega, ?_⟩
+          simpa using this.2
+    · exact hnop _ (step_plugin_other hp)
   | encResp tok secret =>
-    by_cases hw : s.phase = .expect ∨ s.phase = .successSent
+    by_cases hw : s.phase = .expect ∨ s.phase = .waiting ∨ s.phase = .successSent
     · rw [step_enc_wrong hw]; exact hcl _ rfl
-    · have hp : s.phase = .encSent := by
-        cases h : s.phase <;> simp [h] at hdone hw ⊢
+    · have hp : s.phase = .encSent := by cases h : s.phase <;> simp [h] at hdone hw ⊢
+      rw [step_enc_encSent hp]
       cases he : s.verify.isEmpty with
-      | true => rw [step_enc_noverify hp he]; exact hcl _ rfl
+      | true => rw [encStep_noverify he]; exact hcl _ rfl
       | false =>
         by_cases ht : tok = some s.verify
         · subst ht
           cases secret with
-          | none => rw [step_enc_nosecret hp he]; exact hcl _ rfl
+          | none => rw [encStep_nosecret he]; exact hcl _ rfl
           | some sec =>
             cases hk : keyLenOk sec.length with
-            | false => rw [step_enc_badlen hp he hk]; exact hcl _ rfl
+            | false => rw [encStep_badlen he hk]; exact hcl _ rfl
             | true =>
               cases hs : env.sess s.name sec with
-              | error => rw [step_enc_error hp he hk hs]; exact hcl _ rfl
-              | offline => rw [step_enc_offline hp he hk hs]; exact hcl _ rfl
-              | badProfile => rw [step_enc_badprofile hp he hk hs]; exact hcl _ rfl
+              | error => rw [encStep_error he hk hs]; exact hcl _ rfl
+              | offline => rw [encStep_offline he hk hs]; exact hcl _ rfl
+              | badProfile => rw [encStep_badprofile he hk hs]; exact hcl _ rfl
               | online =>
-                rw [step_enc_online hp he hk hs]
-                have := admit_successCount cfg s.name true
+                rw [encStep_online he hk hs]
+                have := admitSeq_successCount cfg s.name true
                 simp only [successCount] at this
                 simp [hp, rank, successCount, this]
-        · rw [step_enc_badtoken hp he ht]; exact hcl _ rfl
+        · rw [encStep_badtoken he ht]; exact hcl _ rfl
   | ack =>
-    by_cases hw : s.phase = .expect ∨ s.phase = .encSent
+    by_cases hw : s.phase = .expect ∨ s.phase = .waiting ∨ s.phase = .encSent
     · rw [step_ack_wrong hw]; exact hcl _ rfl
-    · have hp : s.phase = .successSent := by
-        cases h : s.phase <;> simp [h] at hdone hw ⊢
+    · have hp : s.phase = .successSent := by cases h : s.phase <;> simp [h] at hdone hw ⊢
       simp [step, hp, successCount, rank]
   | other =>
-    have hp : s.phase = .expect ∨ s.phase = .encSent ∨ s.phase = .successSent := by
+    have hp : s.phase = .expect ∨ s.phase = .waiting ∨ s.phase = .encSent ∨ s.phase = .successSent := by
       cases h : s.phase <;> simp [h] at hdone ⊢
     rw [step_other_open hp]; exact hcl _ rfl
 
